@@ -753,6 +753,7 @@ fn case<T: BT>(scen: &str, run: Run) -> Case {
 
 include!("../c05/types.in");
 include!("../c05/sites.rs");
+include!("../c05/declared.rs");
 
 /// Class representatives of the read-site / private-copy scenarios: one type per
 /// boundary type family (the seven scalar kinds, by-reference plain data, clone
@@ -763,6 +764,8 @@ fn rep_cases(cases: &mut Vec<Case>) {
     fn rep<T: BT>(scen: &str, run: Run) -> Case {
         Case { name: format!("rep:{scen} {}", T::desc().roto()), run }
     }
+    // script-declared types in exported signatures (refused, or crossing unchanged)
+    declared_cases(cases);
     macro_rules! any_type { ($($t:ty);* $(;)?) => { $(
         cases.push(rep::<$t>("sites-const", sc_sites_const::<$t>));
         cases.push(rep::<$t>("sites-arg", sc_sites_arg::<$t>));
@@ -1315,6 +1318,7 @@ fn main() {
             facts(&mut rep, &tier);
             roundtrip_model(&mut rep, seed.parse().unwrap(), if tier == "thorough" { 200 } else { 24 });
             provenance(&mut rep);
+            gate_tie(&mut rep);
             let total = cases().len() as u64;
             let names: Vec<String> = cases().into_iter().map(|c| c.name).collect();
             // crash-isolated batches; a tree on which many cases die is not explored to the end
@@ -1322,7 +1326,9 @@ fn main() {
             let mut crashes = 0u32;
             let mut timeouts = 0u32;
             while from < total {
-                let n = 150.min(total - from);
+                // the representatives of script-declared types one per worker: a dead worker must
+                // not take the value-level findings of its neighbours with it
+                let n = if names[from as usize].starts_with("rep:declared") { 1 } else { 150.min(total - from) };
                 let (f, c) = (from.to_string(), n.to_string());
                 let (ended, out) = worker::run_worker_keep_stdout(&[&seed, &tier, &f, &c], Duration::from_secs(300));
                 if let Some(v) = Report::parse_stdout(&out) {
